@@ -476,7 +476,13 @@ def shard_assembled(spec: Dict[str, Any]) -> Dict[str, Any]:
             except flipjump.FlipJumpException as exc:
                 images[version] = ('error', type(exc).__name__)
                 continue
-            reader = Reader(out)
+            try:
+                reader = Reader(out)
+            except flipjump.FlipJumpException as exc:
+                violations.append({'key': 'reader-refuses-assembled-program', 'what': f'{program.name} v{version}: {str(exc)[:200]}',
+                                   'replay': {'program': str(program), 'version': version}})
+                images[version] = ('error', 'reader: ' + type(exc).__name__)
+                continue
             images[version] = ('ok', [(s.segment_start, s.segment_length) for s in reader.memory_segments],
                                {k: v for k, v in reader.memory.items() if v}, reader.zeros_boundaries)
         counters['assembled_programs'] = counters.get('assembled_programs', 0) + 1
